@@ -7,7 +7,7 @@
     NOT claimed: the typed API counts no nesting (C18_typed_counts_no_nesting states it); for Rust types that
     contain themselves the nesting is then chosen by the message (known finding D21). *)
 From RB Require Import Base.Prelude Sig.Types Wire.Bytes Wire.Align Wire.Value Wire.SpecEnc Wire.Marshal Wire.Decode Wire.Unmarshal
-  Wire.Limits Wire.LimitsProofs Conn.Recv Conn.RecvLists Wire.LimitsRecv.
+  Wire.Relabel Wire.MarshalProofs Wire.Limits Wire.LimitsProofs Wire.LimitsSend Conn.Recv Conn.RecvLists Wire.LimitsRecv.
 
 (* decoders, length: when the u32 at the (aligned) length position of an array or dict exceeds 2^26, raw validation,
    the Param decoder and the typed decoder (slice fast path and element loop) all return an error - whatever the
@@ -99,6 +99,19 @@ Theorem C18_send_slice_typed : forall be t vs c c', valid_slice be t = true ->
   /\ dec be (enc be 4 (align t * len vs)) = align t * len vs.
 Proof. exact marshal_t_slice_limit. Qed.
 Print Assumptions C18_send_slice_typed.
+
+(* send path, arrays, as one statement about the whole value: when a marshal call succeeds (typed API or Param API, any
+   nesting counter, any buffer before it), EVERY array and dict inside the value, at any depth, has at most 2^26 bytes of
+   content in the encoding produced ([arrays_within] looks at the specification's encoding of the value as it is on the wire,
+   descriptors relabelled to their indices; by C02 these are the bytes that were written). Hypotheses as in C02: a well-typed
+   value (what Rust's types guarantee) whose strings are shorter than 4 GiB, at most 2^32 descriptors. *)
+Theorem C18_send_arrays : forall be v, typed v -> strings_small v = true ->
+  (forall c c', marshal_t be v c = (c', true) -> snd (relabel v (mfds c)) <= 2 ^ 32 ->
+     arrays_within be (len (mbuf c)) (fst (relabel v (mfds c))) = true)
+  /\ (forall d c c', marshal_p be d v c = (c', true) -> snd (relabel v (mfds c)) <= 2 ^ 32 ->
+        arrays_within be (len (mbuf c)) (fst (relabel v (mfds c))) = true).
+Proof. exact send_arrays_within. Qed.
+Print Assumptions C18_send_arrays.
 
 (* send path, message level: marshal() refuses header + body above 2^27 bytes and otherwise writes the body length
    untruncated; the header field array goes through the same check as every array *)
